@@ -24,7 +24,7 @@ CHECKS = {
     },
     "C02": {
         "level": "fault_enumeration",
-        "text": "Pipeline.tla models Execute/pkgExecute with one action per critical section and a fault (generator error, unparseable rendering, process death) chosen lazily at every callback; TLC checks for all behaviours in bound that failure or death leaves gengo.sum and the culprit's previous file untouched (C02_* invariants, FineRefinesMacro). PipelineHist.tla then enumerates every single fault position x package x generator x run shape x pre-state x layout; each history runs on a real module (death = os.Exit inside the callback, fresh process per run) and PipelineTrace.tla judges outcome, error text, gengo.sum bytes, culprit file, sibling effects and the follow-up run.",
+        "text": "Pipeline.tla models Execute/pkgExecute with one action per critical section and a fault (generator error, unparseable rendering, process death) chosen lazily at every callback; TLC checks for all behaviours in bound that failure or death leaves gengo.sum and the culprit's previous file untouched (C02_* invariants, FineRefinesMacro). PipelineHist.tla then enumerates every single fault position x package x generator x run shape x pre-state x layout; each history runs on a real module (death = os.Exit inside the callback, fresh process per run) and PipelineTrace.tla judges outcome, error text, gengo.sum bytes, culprit file, sibling effects and the follow-up run. Unbounded part: specs/proofs/PipelineSumProof.tla (TLAPS, 206 obligations) proves over Pipeline.tla itself, for any packages / generators / runs, that gengo.sum changes only at the save step or between runs and is unchanged whenever a run is in progress, failed or died.",
         "note": 'Fixture module with three packages in three layouts; bounds of Loop A per cfg (2-3 packages, 2 generators, 3-5 runs, 1-2 environment actions). Real map/sync.Map orders are sampled (fresh process per run), all orders only in the model. Crash points inside WriteToFile/Save not enumerated.',
         "technique": _TLC,
     },
@@ -42,13 +42,13 @@ CHECKS = {
     },
     "C07": {
         "level": "model_checking",
-        "text": "Action properties of Pipeline.tla (inputs never change, only the current package's outputs change, gengo.sum only at the save step of an All run, non-selected packages untouched, file exists iff rendered / ErrIgnore keeps) checked by TLC; PipelineHist.tla enumerates planted file sets x behaviour configurations x run shapes x layouts; every file under the module root is digested before/after each run and PipelineTrace.tla checks the changed set and the existence predicate.",
+        "text": "Action properties of Pipeline.tla (inputs never change, only the current package's outputs change, gengo.sum only at the save step of an All run, non-selected packages untouched, file exists iff rendered / ErrIgnore keeps) checked by TLC; PipelineHist.tla enumerates planted file sets x behaviour configurations x run shapes x layouts; every file under the module root is digested before/after each run and PipelineTrace.tla checks the changed set and the existence predicate. Pipeline.tla's inputs-untouched and current-package-only properties are also proved by TLAPS for unbounded constants (PipelineSumProof.tla, thorough tier); a wrong-alternative configuration (file decided before the deferred callbacks ran) must yield a TLC counterexample.",
         "note": 'Fixture module with three packages in three layouts; bounds of Loop A per cfg (2-3 packages, 2 generators, 3-5 runs, 1-2 environment actions). Real map/sync.Map orders are sampled (fresh process per run), all orders only in the model. Crash points inside WriteToFile/Save not enumerated.',
         "technique": _TLC,
     },
     "C08": {
         "level": "model_checking",
-        "text": 'Pipeline.tla gives directories structural hashes (covering nested package directories) and models load-time hashing, the cached-skip guard, save after success and environment edits; TLC checks skip-only-if-unchanged, sum-after-success and bounded convergence (2 + nesting depth quiet runs, then nothing happens) and reproduces non-convergence when the root hash covers gengo.sum. PipelineHist.tla enumerates histories over 17 steps (edits, user files, deleted outputs, deleted/corrupted gengo.sum, Force, failing and subset runs) from fresh and converged pre-states in three layouts; PipelineTrace.tla binds the logged dirhash values and judges every run.',
+        "text": 'Pipeline.tla gives directories structural hashes (covering nested package directories) and models load-time hashing, the cached-skip guard, save after success and environment edits; TLC checks skip-only-if-unchanged, sum-after-success and bounded convergence (2 + nesting depth quiet runs, then nothing happens) and reproduces non-convergence when the root hash covers gengo.sum. PipelineHist.tla enumerates histories over 17 steps (edits, user files, deleted outputs, deleted/corrupted gengo.sum, Force, failing and subset runs) from fresh and converged pre-states in three layouts; PipelineTrace.tla binds the logged dirhash values and judges every run. C08_SumAfterSuccess is also proved by TLAPS for unbounded constants (PipelineSumProof.tla, thorough tier); two wrong-alternative configurations (root hash covers gengo.sum; save only when the mapping changed) must yield TLC counterexamples.',
         "note": 'Fixture module with three packages in three layouts; bounds of Loop A per cfg (2-3 packages, 2 generators, 3-5 runs, 1-2 environment actions). Real map/sync.Map orders are sampled (fresh process per run), all orders only in the model. Crash points inside WriteToFile/Save not enumerated.',
         "technique": _TLC,
     },
@@ -112,7 +112,7 @@ CHECKS = {
                 "with the scope filter and exhibits the order-dependent counterexample without - and (2) DFS registration over an import DAG for every visiting order and root set "
                 "(imports resolve iff the package object is created after its imports). Every selection of up to 3-4 of 22 source features is a synthetic package, the dependency "
                 "closure of gengo's own module (std included) is the real corpus; UniverseTrace.tla compares table key sets, identity, MethodsOf, Imports, LocateInPackage, SourceDir "
-                "with go/types scopes and file positions logged by the harness.",
+                "with go/types scopes and file positions logged by the harness. UniverseTablesProof.tla (TLAPS, 54 obligations, over Universe.tla itself) proves the table machine correct for any object set and visiting order; the configuration without the scope filter must yield a TLC counterexample.",
         "note": "go/types and go/packages are the oracle. Interface types are excluded from the MethodsOf comparison; init/blank functions set aside.",
         "technique": _TLC,
     },
